@@ -123,6 +123,14 @@ def expected(v):
 def json_md(draw, n):
     if draw(st.integers(0, 2)) == 0:
         return None
+    if draw(st.integers(0, 5)) == 0:
+        # records that compare equal although they are not the same data
+        # (1 == 1.0 == True, 0 == 0.0 == False): each ID keeps its own
+        pool = draw(st.sampled_from([[1, 1.0, True], [0, 0.0, False],
+                                     [[1, 2], [1.0, 2.0], [True, 2]],
+                                     [{"a": 1}, {"a": 1.0}, {"a": True}]]))
+        key = draw(st.sampled_from(["k", "chimeric", "a b"]))
+        return [{key: draw(st.sampled_from(pool))} for _ in range(n)]
     out = []
     for _ in range(n):
         out.append(draw(st.dictionaries(
@@ -329,7 +337,8 @@ def check(case, rec):
             if any(g for g in got):
                 bad("doc-metadata", "%s metadata %r, table has none" %
                     (field, got))
-        elif [g or {} for g in got] != [w or {} for w in want]:
+        elif not observe.same_data([g or {} for g in got],
+                                   [w or {} for w in want]):
             bad("doc-metadata", "%s metadata %r != %r" % (field, got, want))
     if doc.get("shape") != [n, m]:
         bad("doc-shape", "%r != %r" % (doc.get("shape"), [n, m]))
@@ -420,7 +429,7 @@ def check(case, rec):
     for key in ("obs", "samp"):
         g = observe.norm_md(got[key + "_md"])
         w = observe.norm_md(exp_md[key])
-        if g != w:
+        if not observe.same_data(g, w):
             bad("readback-metadata", "%s: %r != %r" % (key, g, w))
     if got["type"] != src["type"]:
         bad("readback-type", "%r != %r" % (got["type"], src["type"]))
